@@ -27,7 +27,7 @@
 // wire form of a level name: `!` stands for `/`, `^` for a line feed (a name no `.` of a regex matches)
 std::string decodeName(std::string n) { for (auto &c : n) { if (c == '!') c = '/'; else if (c == '^') c = '\n'; } return n; }
 
-RoutingKey buildKey(const std::string &pat) {
+static RoutingKey buildKeyNow(const std::string &pat) {
     RoutingKeyBuilder b;
     std::istringstream is(pat);
     std::string tok;
@@ -39,6 +39,34 @@ RoutingKey buildKey(const std::string &pat) {
         else throw std::runtime_error("bad level");
     }
     return b.build();
+}
+
+// Keys a program keeps as namespace-scope constants are built during STATIC INITIALISATION, and this translation unit is first on
+// the link line — its initialisers run before those of the library's own translation units (what an application linking the
+// static library gets by default).  Every pattern of up to three levels over {the builder's wildcard, =a, =b, =ab} that contains
+// a wildcard is pre-built here; buildKey() hands out a copy of the pre-built key whenever the wire text names one of them.
+static std::map<std::string, RoutingKey> &earlyKeys() {
+    static std::map<std::string, RoutingKey> m;
+    return m;
+}
+static const bool g_earlyKeysBuilt = [] {
+    const std::vector<std::string> lv = {"*", "=a", "=b", "=ab"};
+    std::vector<std::string> pats;
+    for (auto &a : lv) {
+        pats.push_back("/" + a);
+        for (auto &b : lv) {
+            pats.push_back("/" + a + "/" + b);
+            for (auto &c : lv) pats.push_back("/" + a + "/" + b + "/" + c);
+        }
+    }
+    for (auto &p : pats) if (p.find('*') != std::string::npos) earlyKeys().emplace(p, buildKeyNow(p));
+    return true;
+}();
+
+RoutingKey buildKey(const std::string &pat) {
+    auto it = earlyKeys().find(pat);
+    if (it != earlyKeys().end()) return it->second;
+    return buildKeyNow(pat);
 }
 
 std::string showKey(const std::string &pat) {
